@@ -4,9 +4,21 @@
 From Coq Require Import Nnat Znat.
 From Slsk Require Import Base.Tac.
 From Slsk Require Import C01.Types C01.Model C01.Proofs C02.Model.
+From SlskGen Require Import ConnGen.
 Open Scope N_scope.
 
 (* ==================================================================================== *)
+(* ---------- the GENERATED framing constants have the values the proofs below are about ---------- *)
+Lemma conn_constants : (CONN_HDR_OBF, CONN_HDR_PLAIN, CONN_LEN_WIDTH, CONN_LEN_OFFSET) = (8, 4, 4, 0)%nat /\
+  decode_wraps_every_exception = true /\ callback_guarded_by_exception = true.
+Proof. repeat split. Qed.
+
+Lemma frame_len_4 : forall h, length h = 4%nat -> frame_len h = leval h.
+Proof.
+  intros h L. unfold frame_len. change CONN_LEN_WIDTH with 4%nat. change CONN_LEN_OFFSET with 0%nat.
+  cbn [skipn]. rewrite <- L. rewrite firstn_all. reflexivity.
+Qed.
+
 (* ---------- split_frame ---------- *)
 Lemma plain_length : forall b, length (plain b) = (4 + length b)%nat.
 Proof. intros. unfold plain. rewrite app_length, le_length. reflexivity. Qed.
@@ -17,7 +29,7 @@ Proof. induction data; intros; cbn [obf_enc_loop length]; auto. Qed.
 Lemma wframe_length : forall obf k b, length k = 4%nat ->
   length (wframe obf k b) = (hdr_size obf + length b)%nat.
 Proof.
-  intros obf k b L. unfold wframe, wire_encode. destruct obf; cbn [hdr_size].
+  intros obf k b L. unfold wframe, wire_encode. destruct obf; cbn [hdr_size]; change CONN_HDR_OBF with 8%nat; change CONN_HDR_PLAIN with 4%nat.
   - unfold obf_encode. rewrite app_length.
     rewrite obf_enc_loop_length, plain_length. lia.
   - rewrite plain_length. lia.
@@ -29,7 +41,7 @@ Proof.
   intros obf k b rest L B Hb. unfold split_frame.
   rewrite app_length, wframe_length by auto.
   destruct (Nat.leb_spec (hdr_size obf) (hdr_size obf + length b + length rest)); [|lia].
-  destruct obf; cbn [hdr_size wframe wire_encode wire_decode] in *.
+  destruct obf; cbn [hdr_size wframe wire_encode wire_decode] in *; change CONN_HDR_OBF with 8%nat in *; change CONN_HDR_PLAIN with 4%nat in *.
   - (* obfuscated: 8-byte header = key ++ obfuscated length *)
     assert (K : key_ok k) by (split; auto).
     unfold obf_encode. rewrite obf_enc_loop_xs0 by auto.
@@ -40,14 +52,14 @@ Proof.
     replace ((k ++ h ++ t) ++ rest) with ((k ++ h) ++ (t ++ rest)) by (rewrite <- !app_assoc; reflexivity).
     rewrite firstn_app_exact, skipn_app_exact by (rewrite app_length; lia).
     rewrite obf_decode_xs by auto. unfold h. rewrite xs_involutive.
-    rewrite leval_le by (rewrite pow256_4; auto).
+    rewrite frame_len_4 by apply le_length. rewrite leval_le by (rewrite pow256_4; auto).
     rewrite len_app. destruct (N.leb_spec (len b) (len t + len rest)); [|unfold len in *; lia].
     rewrite Nto_nat_len. rewrite <- Lt. rewrite firstn_app_exact, skipn_app_exact by reflexivity.
     rewrite <- !app_assoc. reflexivity.
   - unfold plain.
     replace ((le 4 (len b) ++ b) ++ rest) with (le 4 (len b) ++ (b ++ rest)) by (rewrite <- app_assoc; reflexivity).
     rewrite firstn_app_exact, skipn_app_exact by apply le_length.
-    rewrite leval_le by (rewrite pow256_4; auto).
+    rewrite frame_len_4 by apply le_length. rewrite leval_le by (rewrite pow256_4; auto).
     rewrite len_app. destruct (N.leb_spec (len b) (len b + len rest)); [|lia].
     rewrite Nto_nat_len. rewrite firstn_app_exact, skipn_app_exact by reflexivity. reflexivity.
 Qed.
@@ -68,7 +80,7 @@ Proof.
   rewrite app_length. destruct (Nat.leb_spec (hdr_size obf) (length buf + length c)); [|lia].
   rewrite firstn_app. replace (hdr_size obf - length buf)%nat with 0%nat by lia. cbn [firstn]. rewrite app_nil_r.
   rewrite skipn_app. replace (hdr_size obf - length buf)%nat with 0%nat by lia. cbn [skipn].
-  set (n := leval (wire_decode obf (firstn (hdr_size obf) buf))) in *.
+  set (n := frame_len (wire_decode obf (firstn (hdr_size obf) buf))) in *.
   set (r := skipn (hdr_size obf) buf) in *.
   destruct (N.leb_spec n (len r)) as [Hn|]; [|discriminate].
   rewrite len_app. destruct (N.leb_spec n (len r + len c)); [|lia].
@@ -89,7 +101,7 @@ Proof.
 Qed.
 
 Lemma hdr_pos : forall obf, (4 <= hdr_size obf)%nat.
-Proof. destruct obf; cbn; lia. Qed.
+Proof. destruct obf; cbn [hdr_size]; change CONN_HDR_OBF with 8%nat; change CONN_HDR_PLAIN with 4%nat; lia. Qed.
 
 (* ---------- drain ---------- *)
 Lemma drain_fuel : forall obf fuel buf, (length buf <= fuel)%nat ->
@@ -373,3 +385,51 @@ Proof.
     pose proof (dec_arr_progress (dec e) 1 (fun x v r H => ltac:(apply dec_progress in H; lia)) _ _ _ _ _ H). lia.
 Qed.
 
+
+(* ==================================================================================== *)
+(* write side composed with the peer's reader *)
+From SlskGen Require Import PrimGen SchemaGen.
+
+Lemma enc_msg_plain : forall zc s m fr, enc_msg zc s m = Some fr ->
+  exists body, fr = plain body /\ len body < u32max.
+Proof.
+  intros zc s m fr H. destruct (enc_msg_shape zc s m fr H) as [body [body' [_ [_ [Hl ->]]]]].
+  exists (le (id_width s) (msg_id s) ++ body'). unfold plain. rewrite len_app. split; [reflexivity|exact Hl].
+Qed.
+
+Lemma sent_wire_frames : forall p obf kfs, sent_wire p obf kfs = frames_on_wire obf kfs.
+Proof. intros [] obf kfs; reflexivity. Qed.
+
+(* one message handed to a send path: key, class, value, serialised frame *)
+Record sent_item := mkItem { ikey : bytes; ischema : schema; ivalue : list value; iframe : bytes }.
+
+Definition item_ok (zc : bytes -> bytes) (f : family) (d : direction) (it : sent_item) : Prop :=
+  length (ikey it) = 4%nat /\ bytes_ok (ikey it) /\ In (ischema it) (table all_schemas f d) /\
+  canonical (ischema it) (ivalue it) /\ enc_msg zc (ischema it) (ivalue it) = Some (iframe it).
+
+Theorem send_receive : forall zc zd, (forall x, zd (zc x) = Some x) ->
+  forall p obf f d (h : list (schema * list value) -> schema * list value -> hout) items chunks,
+  handlers_never_cancel h -> In (f, d) tables -> Forall (item_ok zc f d) items ->
+  concat chunks = sent_wire p obf (map (fun it => (ikey it, iframe it)) items) ->
+  let s := rrun obf (dispatch zd (table all_schemas f d) (gen_fam_width f)) h (map Chunk chunks) in
+  rdelivered s = map (fun it => (ischema it, ivalue it)) items /\ rbuf s = [] /\ rrunning s = true /\ rclosed s = false.
+Proof.
+  intros zc zd Hz p obf f d h items chunks Hh It Hok Hc.
+  rewrite sent_wire_frames in Hc.
+  assert (exists kbs, Forall frame_ok kbs /\
+            frames_on_wire obf (map (fun it => (ikey it, iframe it)) items) =
+              concat (map (fun kb => wframe obf (fst kb) (snd kb)) kbs) /\
+            filter_map (fun kb => dispatch zd (table all_schemas f d) (gen_fam_width f) (plain (snd kb))) kbs =
+              map (fun it => (ischema it, ivalue it)) items) as [kbs [F [E G]]].
+  { clear Hc. induction Hok as [|it items [L [B [Is [C En]]]] Hr [kbs [F [E G]]]].
+    - exists []. split; [constructor|]. split; reflexivity.
+    - destruct (enc_msg_plain zc _ _ _ En) as [body [Ef Hl]].
+      exists ((ikey it, body) :: kbs). split; [constructor; [split; [exact L|split; [exact B|exact Hl]]|exact F]|].
+      split.
+      + unfold frames_on_wire in *. cbn [map concat fst snd]. rewrite E. unfold wframe. rewrite Ef. reflexivity.
+      + cbn [filter_map map fst snd]. rewrite <- Ef.
+        rewrite (dispatch_current zc zd Hz f d _ _ _ It Is C En). rewrite G. reflexivity. }
+  rewrite E in Hc.
+  pose proof (reader_framing obf (dispatch zd (table all_schemas f d) (gen_fam_width f)) h Hh kbs chunks F Hc) as R.
+  cbv zeta in R. rewrite G in R. exact R.
+Qed.
